@@ -171,10 +171,7 @@ func Run(ctx *Ctx, sc *Scn) (evs []trace.Ev, note string) {
 		"appid": vx.CanSetAppID(), "unicodeCore": vx.CanUnicodeCore(), "explicitWidth": vx.CanExplicitWidth()}})
 	evs = append(evs, wrapHost(hcv.Feed(host.Startup))...)
 	rgbcap := vx.CanRGB()
-	want := make([][]c01.CellD, rows)
-	for r := range want {
-		want[r] = make([]c01.CellD, cols)
-	}
+	want := c01.NewRec(cols, rows, cv)
 	type curReq struct {
 		vis             bool
 		row, col, shape int
@@ -186,45 +183,17 @@ func Run(ctx *Ctx, sc *Scn) (evs []trace.Ev, note string) {
 		}
 		win := vx.Window()
 		for _, op := range f.Ops {
-			in := op.C >= 0 && op.C < cols && op.R >= 0 && op.R < rows
 			switch op.K {
 			case "set":
 				win.SetCell(op.C, op.R, op.Cell.V())
-				if in {
-					want[op.R][op.C] = *op.Cell
-				}
 			case "style":
 				win.SetStyle(op.C, op.R, op.Style.V())
-				if in {
-					want[op.R][op.C].S = *op.Style
-				}
 			case "fill":
 				win.Fill(op.Cell.V())
-				for r := range want {
-					for c := range want[r] {
-						want[r][c] = *op.Cell
-					}
-				}
 			case "clear":
 				win.Clear()
-				for r := range want {
-					for c := range want[r] {
-						want[r][c] = c01.CellD{G: " ", W: 1}
-					}
-				}
 			case "print":
 				win.Print(vaxis.Segment{Text: op.Text, Style: op.Style.V()})
-				c, r := 0, 0
-				for _, ch := range op.Text {
-					if r >= rows {
-						break
-					}
-					want[r][c] = c01.CellD{G: string(ch), W: 1, S: *op.Style}
-					c++
-					if c >= cols {
-						c, r = 0, r+1
-					}
-				}
 			case "show":
 				vx.ShowCursor(op.C, op.R, vaxis.CursorStyle(op.Shape))
 				cur = curReq{true, op.R, op.C, op.Shape}
@@ -232,6 +201,7 @@ func Run(ctx *Ctx, sc *Scn) (evs []trace.Ev, note string) {
 				vx.HideCursor()
 				cur.vis = false
 			}
+			want.Apply(op)
 		}
 		if f.End == "refresh" {
 			vx.Refresh()
@@ -257,20 +227,7 @@ func Run(ctx *Ctx, sc *Scn) (evs []trace.Ev, note string) {
 			}
 		}
 		evs = append(evs, fevs...)
-		app := make([][][]int, rows)
-		for r := range want {
-			app[r] = make([][]int, cols)
-			for c := range want[r] {
-				cell := want[r][c]
-				v := cell.S.V()
-				ln := 0
-				if cell.S.Link != "" {
-					ln = ctx.L.ID(cell.S.LinkP + ";" + cell.S.Link)
-				}
-				app[r][c] = []int{cv.G.ID(cell.G), cell.W, c01.ColInt(v.Foreground), c01.ColInt(v.Background),
-					c01.ColInt(v.UnderlineColor), int(cell.S.Us), c01.AttrInt(v.Attribute), ln, cv.AppWidth(cell.G)}
-			}
-		}
+		app := want.App(cv, ctx.L)
 		cr := []int{0, 0, 0, 0}
 		if cur.vis {
 			cr = []int{1, cur.row + 1, cur.col + 1, cur.shape}
